@@ -79,10 +79,19 @@ FAILING = ("exhausted", "garbage_then_silence", "fragment_then_silence", "exhaus
            "connect_refused_all", "connect_unreachable_all", "open_dns_failure_all", "send_error", "recv_error")
 
 
-def build_steps(transport, prefix, gap, probe, R=2):
+# commands the earlier requests of a history use (the probe keeps the default read): reads of other sizes, writes, and on AA55 the vendor's
+# control-class (03xx) and write-class (02xx) commands - whatever kind of command an earlier request was, the probe's budget is the configured one
+PREFIX_COMMANDS = {
+    "udp": [None, ("read", 36000, 45), ("write", 47510, -5), ("write_multi", 47547, bytes(range(12)))],
+    "tcp": [None, ("read", 36000, 45), ("write", 47510, -5), ("write_multi", 47547, bytes(range(12)))],
+    "aa55": [None, ("aa55", "0335020fa0", "03b5"), ("aa55", "02390507000100ff", "02b9"), ("aa55", "031d00", "039d")],
+}
+
+
+def build_steps(transport, prefix, gap, probe, R=2, variant=0):
     steps = []
     classes = outcome_classes(transport)
-    for name in prefix:
+    for pos, name in enumerate(prefix):
         if isinstance(name, dict):
             # free-form earlier request: any fault script of C04's alphabet; the network is drained afterwards so that nothing
             # it left in flight can answer the probe (only what the LIBRARY kept from it may matter)
@@ -104,6 +113,10 @@ def build_steps(transport, prefix, gap, probe, R=2):
                     st = {"op": "request", "script": [["frag", 9, 2, 6]]}  # AA55 answers all have one length: plain fragmented success
                 else:
                     st["command"] = tuple(st["command"])
+            elif variant:
+                cmdspec = PREFIX_COMMANDS.get(transport, [None])[(variant + pos) % len(PREFIX_COMMANDS.get(transport, [None]))]
+                if cmdspec is not None:
+                    st["command"] = cmdspec
             steps.append(st)
         if gap == "idle" and name != "newloop":
             steps.append({"op": "idle"})
@@ -141,13 +154,13 @@ def check_history(acc: Acc, case):
         probe_script = [["pieces", [["garbage", int(d1)], ["garbage", int(d2)]]]] * (R + 2)
     else:
         raise ValueError(k)
-    steps = build_steps(transport, prefix, case.get("gap", 0), probe_script, R)
+    steps = build_steps(transport, prefix, case.get("gap", 0), probe_script, R, case.get("cmdvar", 0))
     if probe_cmd and transport != "aa55":
         steps[-1]["command"] = probe_cmd
     full = dict(case)
     full["steps"] = steps
     if any(p not in ("success", "success_late_in_time") for p in prefix):
-        acc.nontrivial(transport, case.get("keep"), T, R, repr(prefix), case.get("gap", 0), k, case.get("api", False))
+        acc.nontrivial(transport, case.get("keep"), T, R, repr(prefix), case.get("gap", 0), k, case.get("api", False), case.get("cmdvar", 0))
     results, world, errors, protocol = netcase.run_sequence(full)
     fails = []
     probe = results[-1]
@@ -239,6 +252,9 @@ def enum_job(job):
                 case = {"transport": transport, "keep": keep, "T": T, "R": R, "prefix": list(prefix), "gap": gap,
                         "k": k, "latency": 0}
                 _apply(acc, case)
+                if n >= 1 and k in (None, R):
+                    for cv in (1, 2, 3):      # earlier requests carry other kinds of commands (writes, AA55 control / write class)
+                        _apply(acc, dict(case, cmdvar=cv))
                 if n < 2 or all(p in FAILING for p in prefix):
                     _apply(acc, dict(case, api=True))   # the same history through an inverter object (all failure streaks of length 2)
     for streak in (3, 4, 6):      # longer streaks of completely failed requests through an inverter object, then the probe
